@@ -183,6 +183,8 @@ func checkC11(r *Run) {
 		}
 	}
 
+	ioDeadlineArmed(r, "io-deadline")
+	c11RetryOnlyTransient(r, p, "io-retry", connFns, "a failed read/write is treated as temporary although the error is not a transient net.Error: the loop spins or drops replies for ever, the connection is never closed, serve never returns and Stop never runs")
 	c11CancelAll(r, p)
 	c11StopOnce(r, p)
 
@@ -500,4 +502,190 @@ func c11JoinOrRefuse(r *Run, p *Prog) {
 	}
 	r.Check(joined || refused, "join-or-refuse", "serve/Stop: handler goroutines are joined before Stop, or binding is refused after Stop", pos,
 		"handler goroutines are cancelled but not awaited, and newRef does not consult a stopped flag: a handler that starts (or is still running) after Stop can bind a fid that is never released")
+}
+
+// ---- only transient network errors are retried -------------------------------------------------------------------
+//
+// After a failed ReadFcall/WriteFcall the I/O loop either records the failure (CloseWithError) or goes round again.
+// Going round again is only right for an error that is a net.Error reporting Timeout() or Temporary(): any other
+// error (a closed pipe, a codec error, a wrapped transport's plain error) will not go away, and a loop that treats
+// it as temporary never closes the connection — serve never returns and Stop never runs.
+// The rule enumerates the CFG paths from the error edge back to the loop and requires each to carry both literals.
+
+// transientConds: the branch literals say `e` is a net.Error (assertion ok) with Timeout() or Temporary() true.
+func transientConds(p *Prog, conds []Cond, e ssa.Value, depth int) bool {
+	var asserted ssa.Value
+	okAssert := false
+	for _, cd := range conds {
+		nc := normCond(cd)
+		if ex, ok := nc.V.(*ssa.Extract); ok && ex.Index == 1 && nc.Truth {
+			if ta, ok := ex.Tuple.(*ssa.TypeAssert); ok && ta.X == e && strings.HasSuffix(shortType(ta.AssertedType), "net.Error") {
+				okAssert = true
+				asserted = resultN(ta, 0)
+			}
+		}
+		// a predicate helper that is true only for transient network errors
+		if c, ok := nc.V.(*ssa.Call); ok && nc.Truth && depth < 2 {
+			if g := staticCallee(&c.Call); g != nil && g.Blocks != nil && p.InModule(g) {
+				for k, a := range c.Call.Args {
+					if a == e && transientPred(p, g, k, depth+1) {
+						return true
+					}
+				}
+			}
+		}
+	}
+	if !okAssert {
+		return false
+	}
+	for _, cd := range conds {
+		nc := normCond(cd)
+		if c, ok := nc.V.(*ssa.Call); ok && nc.Truth && c.Call.IsInvoke() && (c.Call.Method.Name() == "Timeout" || c.Call.Method.Name() == "Temporary") {
+			if asserted == nil || c.Call.Value == asserted {
+				return true
+			}
+		}
+	}
+	return false
+}
+
+// transientPred: g returns bool and every way of returning true carries the transient-error literals for parameter k.
+func transientPred(p *Prog, g *ssa.Function, k int, depth int) bool {
+	if k >= len(g.Params) || g.Signature.Results().Len() != 1 {
+		return false
+	}
+	prm := g.Params[k]
+	n := 0
+	var check func(val ssa.Value, conds []Cond, d int) bool
+	check = func(val ssa.Value, conds []Cond, d int) bool {
+		if d > 5 {
+			return false
+		}
+		if c, ok := val.(*ssa.Const); ok {
+			if c.Value != nil && c.Value.String() == "false" {
+				return true
+			}
+			n++
+			return transientConds(p, conds, prm, depth)
+		}
+		if ph, ok := val.(*ssa.Phi); ok {
+			for i, e := range ph.Edges {
+				pred := ph.Block().Preds[i]
+				cs := append(append([]Cond{}, conds...), condsAt(pred)...)
+				if ifi, ok := pred.Instrs[len(pred.Instrs)-1].(*ssa.If); ok && pred.Succs[0] != pred.Succs[1] {
+					for si := 0; si < 2; si++ {
+						if pred.Succs[si] == ph.Block() {
+							cs = append(cs, normCond(Cond{ifi.Cond, si == 0}))
+						}
+					}
+				}
+				if !check(e, cs, d+1) {
+					return false
+				}
+			}
+			return true
+		}
+		n++
+		return transientConds(p, append(append([]Cond{}, conds...), Cond{val, true}), prm, depth)
+	}
+	for _, ret := range returnsOf(g) {
+		if !check(ret.Results[0], condsAtInstr(ret), 0) {
+			return false
+		}
+	}
+	return n > 0
+}
+
+func c11RetryOnlyTransient(r *Run, p *Prog, rule string, fns []*ssa.Function, what string) {
+	n := 0
+	for _, fn := range fns {
+		for _, c := range findCalls(fn, "invoke p9p.Channel.ReadFcall", "invoke p9p.Channel.WriteFcall") {
+			e := errResult(c)
+			if e == nil {
+				continue
+			}
+			n++
+			// the loop this call sits in
+			var header *ssa.BasicBlock
+			for _, b := range fn.Blocks {
+				if isLoopHeader(b) && naturalLoop(b)[c.Block()] {
+					if header == nil || naturalLoop(header)[b] {
+						header = b // innermost
+					}
+				}
+			}
+			key := fmt.Sprintf("%s: a failed %s is retried only for a transient network error", fnName(fn), c.Call.Method.Name())
+			if header == nil {
+				r.OkTrivial(rule, key+" (no retry loop)", c.Pos())
+				continue
+			}
+			body := naturalLoop(header)
+			// walk the paths from the call's block on which the error is non-nil
+			bad := ""
+			paths := 0
+			var walk func(b *ssa.BasicBlock, conds []Cond, seen map[*ssa.BasicBlock]bool, first bool)
+			walk = func(b *ssa.BasicBlock, conds []Cond, seen map[*ssa.BasicBlock]bool, first bool) {
+				if bad != "" || paths > 200 {
+					return
+				}
+				if !first {
+					if b == header || !body[b] {
+						if b == header {
+							paths++
+							// a retry: the error must be known non-nil on this path for it to matter
+							nonNil := false
+							for _, cd := range conds {
+								if nilTestOf(cd, e) == -1 {
+									nonNil = true
+								}
+							}
+							if nonNil && !transientConds(p, conds, e, 0) {
+								bad = condStr(conds)
+							}
+						}
+						return
+					}
+					if seen[b] {
+						return
+					}
+				}
+				seen[b] = true
+				defer delete(seen, b)
+				// a path that records the failure is fine wherever it goes next
+				for _, in := range b.Instrs {
+					if cc, ok := in.(*ssa.Call); ok && strings.HasSuffix(calleeName(&cc.Call), ".CloseWithError") || isCloseCall(in) {
+						if !first || in.Pos() > c.Pos() {
+							return
+						}
+					}
+				}
+				if len(b.Instrs) == 0 {
+					return
+				}
+				switch t := b.Instrs[len(b.Instrs)-1].(type) {
+				case *ssa.If:
+					walk(b.Succs[0], append(append([]Cond{}, conds...), normCond(Cond{t.Cond, true})), seen, false)
+					walk(b.Succs[1], append(append([]Cond{}, conds...), normCond(Cond{t.Cond, false})), seen, false)
+				case *ssa.Return, *ssa.Panic:
+				default:
+					for _, sc := range b.Succs {
+						walk(sc, conds, seen, false)
+					}
+				}
+			}
+			walk(c.Block(), nil, map[*ssa.BasicBlock]bool{}, true)
+			r.Check(bad == "", rule, key, c.Pos(),
+				what+" ["+bad+"]")
+		}
+	}
+	r.Floor(rule, n, 1, "I/O calls in the loops")
+}
+
+func isCloseCall(in ssa.Instruction) bool {
+	c, ok := in.(*ssa.Call)
+	if !ok {
+		return false
+	}
+	n := calleeName(&c.Call)
+	return n == "(*p9p.transport).close" || n == "(*p9p.conn).Close"
 }
